@@ -188,7 +188,8 @@ fn search_case(rep: &mut Report, rng: &mut Rng, ops: &[OpV], thorough: bool) {
     for (refidx, multi_id) in references {
         let refs: Vec<R> = refidx.iter().map(|i| (known[*i].begin(), known[*i].end())).collect();
         for op in ops {
-            let o = op.to_op();
+            // the operator as a literal, or made with the constructor functions and modifiers (every other time)
+            let o = if (refidx.len() + op.kind as usize) % 2 == 0 { op.built() } else { op.to_op() };
             let plain_equals = op.kind == 0 && !op.negate && !op.all;
             // expected by brute force with the public test()
             let refset: ResultTextSelectionSet = refidx.iter().map(|i| known[*i].clone()).collect();
@@ -199,7 +200,7 @@ fn search_case(rep: &mut Report, rng: &mut Rng, ops: &[OpV], thorough: bool) {
                 known
                     .iter()
                     .enumerate()
-                    .filter(|(i, k)| !refidx.contains(i) && refset.test(&o, k))
+                    .filter(|(i, k)| !refidx.contains(i) && refset.test(&op.to_op(), k))
                     .map(|(_, k)| (k.begin(), k.end()))
                     .collect()
             });
